@@ -42,6 +42,7 @@ def core_schema():
     s.declare(include_no_data="bool", include_negative="bool", tickers="labels", lookback="int", lag="int", min_count="int",
               signal="auxframe", stat="auxframe", weights="auxframe", regex="opaque", ascending="bool", all_or_none="bool", filter_selected="bool", sel_n="float",
               stat_name="optstr", signal_name="optstr", weights_name="optstr")
+    s.declare(_weights="optdict", _days_left="optfloat", rot_n="float", _rb="ref:Rebalance")
     # Backtest
     s.declare(strategy="ref:StrategyBase", additional_data="opaque", initial_capital="float", progress_bar="bool", stats="opaque", _original_prices="opaque",
               _original_data="opaque", _setup_kwargs="opaque")
